@@ -243,6 +243,9 @@ impl Accept {
 
                 // waker queue is drained
                 None => {
+                    #[cfg(actix_net_verif)]
+                    crate::verif::point(verif_accept::queue_drained_point(&self.waker_queue));
+
                     // Reset the WakerQueue before break so it does not grow infinitely
                     WakerQueue::reset(&mut guard);
 
